@@ -11,7 +11,7 @@ package yubiagent
 //vsym:model golang.org/x/crypto/ssh.Marshal m13SSHMarshal
 //vsym:replay none
 //vsym:expect-cover C13.addhc.sequence C13.client.exchange C13.addhc.legacy C13.addhc.current C13.addhc.malformed C13.addhc.client-request
-//vsym:bound H13_addhardcert: one add-hardware-certificate frame of 1..3 bytes after the type byte (symbolic); the frame is in the legacy format (the bytes after the type byte are a key blob), in the current format (ssh.Unmarshal succeeds, its key blob parses or not), or neither; the served agent accepts or refuses; client side: AddHardCert with a symbolic 1-byte comment
+//vsym:bound H13_addhardcert: one add-hardware-certificate frame of 1..3 bytes after the type byte (symbolic); the frame is in the legacy format (the bytes after the type byte are a key blob), in the current format (ssh.Unmarshal succeeds, its key blob parses or not), or neither, or a legacy frame that also decodes as the structured request with a blob that is no key; the served agent accepts or refuses; client side: AddHardCert with a symbolic 1-byte comment
 //vsym:bound H13_addhardcert_sequence: a current-format request followed by a legacy-format request on the same connection (and the reverse order)
 //vsym:bound H13_client_exchange: each extended client operation (AddHardCert, ListSlots, ReadSlot, AttestSlot, Wait, Forward): the request write and the response read on the single connection lie inside one critical section of the client's lock
 //vsym:assume ssh.ParsePublicKey / ssh.Unmarshal / ssh.Marshal are modelled: a blob parses to the key object registered for it or fails; a failed ssh.Unmarshal may leave arbitrary data in its destination (the documentation promises nothing on error); no frame is valid in both formats
@@ -135,6 +135,11 @@ func H13_addhardcert() {
 	if !w13TailParses {
 		w13UnmarshalOK = vChoose(2, "current-format") == 1
 		w13BlobParses = vChoose(2, "key-blob-parses") == 1
+	} else {
+		// an ambiguous frame: a legacy key blob that is itself two SSH strings (a plain ed25519 key:
+		// type name, 32 key bytes) also decodes as the structured request, whose "blob" is no key
+		w13UnmarshalOK = vChoose(2, "legacy-frame-also-decodes-as-a-structure") == 1
+		w13BlobParses = false
 	}
 	ag := &m13Agent{refuse: vChoose(2, "agent-refuses") == 1}
 	frame := append([]byte{AgentMessageAddHardCert}, w13Tail...)
